@@ -1,8 +1,12 @@
 #!/bin/sh
-# runs every thorough tier once without budget truncation (triage of thorough-only cells); logs to /tmp/thorough_<ID>.log
-cd /verif
-for P in C09 C17 C18 C11 C20 C04 C13 C02 C12 C07 C08 C14 C15 C19 C10 C03 C05 C06 C01; do
+# runs every thorough tier once without budget truncation (triage of thorough-only cells); logs to <here>/seedlogs/thorough_<ID>.log
+# usage: thorough_sweep.sh [PROP ...]   (works from /verif or a `vp run` snapshot)
+HERE=$(cd "$(dirname "$0")/.." && pwd)
+cd $HERE; mkdir -p seedlogs
+[ $# -gt 0 ] || set -- C09 C17 C18 C11 C20 C04 C13 C02 C12 C07 C08 C14 C15 C19 C10 C03 C05 C06 C01 C16
+for P in "$@"; do
   START=$(date +%s)
-  ./check $P --tier thorough --budget 200000 --no-evidence > /tmp/thorough_$P.log 2>&1
-  echo "$P exit=$? wall=$(( $(date +%s) - START ))s $(grep -o 'cells=[0-9]* confirmed=[0-9]* violations=[0-9]* known=[0-9]* inconclusive=[0-9]*' /tmp/thorough_$P.log | tail -1)" >> /tmp/thorough_sweep.txt
+  ./check $P --tier thorough --budget 200000 --no-evidence > seedlogs/thorough_$P.log 2>&1
+  echo "$P exit=$? wall=$(( $(date +%s) - START ))s $(grep -o 'cells=[0-9]* confirmed=[0-9]* violations=[0-9]* known=[0-9]* inconclusive=[0-9]*' seedlogs/thorough_$P.log | tail -1)" >> seedlogs/thorough_sweep.txt
 done
+cat seedlogs/thorough_sweep.txt
